@@ -148,6 +148,10 @@ def run(ctx):
                 and len(r.ret[1][2]) > 1 and sym.contains(r.ret[1][2][1], lambda x: isinstance(x, tuple) and x and x[0] == 'agg' and isinstance(x[1], tuple) and x[1][0] == 'adt' and x[1][2] == 'OutOfCompressedData'):
             low_idx.append(len(r.events))
             sinks['exhaust'].append((None, None, r))
+        elif r.end == 'return' and r.ret is not None and r.ret[0] == 'agg' and isinstance(r.ret[1], tuple) and r.ret[1][-1] == 'Err' and sym.contains(r.ret, lambda x: isinstance(x, tuple) and x and x[0] == 'agg' and isinstance(x[1], tuple) and x[1][0] == 'adt' and x[1][2] == 'OutOfCompressedData'):
+            # the error is constructed directly (not as the ok_or(..) of a read)
+            low_idx.append(len(r.events))
+            sinks['exhaust'].append((None, None, r))
         if r.end == 'return' and r.ret is not None and r.ret[0] == 'err_of':
             src = error_source(r.ret[1])
             if src is not None and any(ee.get('uid') == src[3] and any(p[:len(COMP)] == COMP for p in ee['mut_paths']) for ee in r.events if ee['kind'] == 'call'):
@@ -205,6 +209,29 @@ def run(ctx):
         ctx.unresolved('R3', role, b.defpath, 'no path updates the head', key=key)
     # exhaustion is reported, never data: covered by C13; here: the OutOfCompressedData exit exists and is LOW-controlled
     key = 'R3/ni/exhaustion/' + b.defpath
+    # exhaustion is *witnessed*: the coder may only report it after a read of the compressed backend returned None, and it
+    # must report it before it modified its heads (a failed attempt leaves the coder as it was)
+    kw = 'R2/exhaustion-witnessed/' + b.defpath
+    rolew = 'OutOfCompressedData is returned only after a read of the compressed backend came back empty, and before the heads were modified'
+    problems = []
+    for _w, _e, r in sinks['exhaust']:
+        reads = [e for e in r.events if e['kind'] == 'call' and e.get('uid') is not None and e['callee'].endswith('ReadWords::read') and any(p[:len(COMP)] == COMP for p in e['mut_paths'])]
+        empty = False
+        for e in reads:
+            res = e['result']
+            # the returned error is the `ok_or(..)` of this very read
+            if sym.contains(r.ret, lambda x: x == res):
+                empty = True
+        if not empty:
+            problems.append('an exit reports OutOfCompressedData without a failed read of the compressed backend on that path (e.g. from an up-front `maybe_exhausted()` test): chunks that are already in the head, or still in the backend, are refused')
+        writes = [e for e in r.events if e['kind'] == 'write' and e['path'][:3] == (1, 'deref', ('f', 'heads'))]
+        if writes:
+            problems.append('the heads are modified (%s at %s) on a path that then reports OutOfCompressedData: a failed attempt changes what later calls decode' % (sym.path_str(writes[0]['path']), (writes[0].get('span') or '?').split('-')[0]))
+    if sinks['exhaust']:
+        if problems:
+            ctx.bad('R2', rolew, b.defpath, problems[0], key=kw, loc=rules.loc(b))
+        else:
+            ctx.ok('R2', rolew, b.defpath, '%d exhaustion exit(s): each returns the ok_or(..) of a read on that path and precedes every write to the heads' % len(sinks['exhaust']), key=kw)
     if sinks['exhaust']:
         ctx.ok('R3', 'running out of compressed data is decided by the compressed side only', b.defpath, '%d exhaustion exit(s), controlled by LOW predicates (see pred rule)' % len(sinks['exhaust']), key=key)
     else:
